@@ -91,7 +91,9 @@ macro_rules! rdata_enum {
                 // OPT needs to look the ttl and class values, hence position will be advanced by OPT
                 // parsing code
                 if rdatatype == TYPE::OPT {
-                    return Ok(RData::OPT(OPT::parse(&data[..*position + rdatalen + 10], position)?))
+                    let end = *position + rdatalen + 10;
+                    let data = data.get(..end).ok_or(crate::SimpleDnsError::InsufficientData)?;
+                    return Ok(RData::OPT(OPT::parse(data, position)?))
                 }
                 *position += 10;
 
